@@ -176,6 +176,10 @@ structure State where
   errCount : Int
 deriving Repr, DecidableEq
 
+/-- the parameters of the call `c.Exchange(ctx, pk, addr)`: the wire bytes are `pk.Encode()` (client.go:51), the
+    secret is `pk.Secret` (client.go:102, :120) - this is how the drivers of C05 and C08 build them -/
+def Params.ofPacket (H : Hash) (cfg : Cfg) (retry : Int) (pk : Packet) : Params := ⟨cfg, retry, encode H pk, pk.secret⟩
+
 /-- the bytes `Encode` produced (`[]` when it refused; then nothing is ever written) -/
 def Params.wireBytes (P : Params) : Bytes :=
   match P.wire with
